@@ -126,6 +126,19 @@ CHECKS = {
          "Exhaustive histories (<=5 calls over 2 names x 3 datasets, empty and pre-populated dirs) against an abstract last-write-wins oracle.",
          "the shipped-data partition (all 28 files vs predicate and independent definitions) is a finite statement decided by complete enumeration in the harness; "
          "automaton language equivalence is checked on all words of length <=7.", "5/C20"),
+ "C15": ("Lean 4 theorems: NFA language = A* phi(u1) A* ... phi(uk) A*, generated M table = alternating-axis words, finiteness test <-> bounded accepted length (pumping), basis automaton = union semantics + correspondence through canonical minimal automata; semantic iff as bounded test",
+         "Proved for every pin word and every word: the model of make_nfa_for_pinword accepts exactly the factor language; the DFA-for-M table regenerated from the "
+         "source accepts exactly the pin-sequence language; the basis automaton accepts w iff some pin word of some basis element does (order/repetition "
+         "independent); 'finitely many pin permutations' <-> accepted words bounded in length (for every driver-executed instance via a checked certificate). "
+         "automata-lib is not modelled: its DFAs are compared with the model's own determinise/minimise/product pipeline through canonical minimal forms, "
+         "including every shipped dfa_db file against a fresh computation.",
+         "accepts <-> contains a basis element (Bassino-Bouvel-Pierrot-Rossin) is a bounded test: all words of L(M) of length <=8 x all bases of <=2 permutations of length <=4.", "5/C15"),
+ "C16": ("Lean 4 theorems: decision logic of has_finite_simples / Av.has_finitely_many_simples / CLI / strategy, D8 characterisation and invariance of the special-simples test, explicit infinite families avoid the generated tables for all m + correspondence on all entry points with a brute-force simples oracle",
+         "Proved: has_finite_simples = special AND pin for every flag combination, all four entry points ask the same question; the special test succeeds iff for "
+         "each table T (parallel alternations, wedges type 1/2, regenerated from the source) and each of the eight symmetries some basis element avoids g.T, it "
+         "depends only on the class, is order/repetition independent and D8-invariant; when it says 'infinitely many' an explicit family with members of "
+         "every length >= 2m lies inside the class (parAlt/wedge families avoid the tables for ALL m).",
+         "agreement of the verdict with the actual simples (Brignall-Ruskuc-Vatter, Schmerl-Trotter) and D8-invariance of the pin half are evaluated (simples counted by brute force to n=9).", "5/C16"),
 }
 
 PENDING = {}
